@@ -59,7 +59,7 @@ func hasProp(props []string, p string) bool {
 	return false
 }
 
-var sweepProps = map[string]bool{"C13": true, "C19": true}
+var sweepProps = map[string]bool{}
 
 func runCheck(args []string) {
 	fs := flag.NewFlagSet("check", flag.ExitOnError)
@@ -186,6 +186,9 @@ func (cr *checkRun) collect() {
 		cr.fns = append(cr.fns, rep)
 		for a := range fc.usedAssumed {
 			cr.assumed[a] = true
+		}
+		for callee := range fc.calledRepo {
+			cr.assumed["callee without contract (effects havocked, its own safety not verified here): "+pkgShort(pkgPathOf(callee))+"."+relName(callee)] = true
 		}
 		for _, n := range fc.notes {
 			cr.notes[n] = true
